@@ -288,7 +288,7 @@ func paramBit(i int) O {
 // subst translates a callee-relative origin into caller terms.
 func (a *E3) subst(o O, args []ssa.Value) O {
 	var r O
-	if o&oRECV != 0 && len(args) > 0 {
+	if o&oRECV != 0 && len(args) > 0 && args[0] != nil {
 		r |= a.get(args[0]) &^ oBARE
 		if o&oVIAEGO != 0 {
 			r |= oVIAEGO
@@ -327,6 +327,14 @@ func (a *E3) Callees(c *ssa.CallCommon) []*ssa.Function {
 		return []*ssa.Function{f}
 	}
 	return nil
+}
+
+// slotArgs aligns actual arguments with the summary numbering of the callee: slot 0 is the receiver (nil for a plain function).
+func slotArgs(callee *ssa.Function, args []ssa.Value) []ssa.Value {
+	if callee.Signature.Recv() != nil {
+		return args
+	}
+	return append([]ssa.Value{nil}, args...)
 }
 
 func callArgs(c *ssa.CallCommon) []ssa.Value {
@@ -428,16 +436,18 @@ func (a *E3) doCall(fn *ssa.Function, instr ssa.Instruction, c *ssa.CallCommon, 
 			}
 			continue
 		}
-		if s.MutRecv && len(args) > 0 {
-			a.effect(fn, instr, "call:"+callee.Name(), a.get(args[0])&oROOTS, 0)
+		// summaries number the receiver slot 0 and the parameters 1..3, also for plain functions
+		sargs := slotArgs(callee, args)
+		if s.MutRecv && len(sargs) > 0 && sargs[0] != nil {
+			a.effect(fn, instr, "call:"+callee.Name(), a.get(sargs[0])&oROOTS, 0)
 		}
-		for i := 1; i < 4 && i < len(args); i++ {
+		for i := 1; i < 4 && i < len(sargs); i++ {
 			if s.MutParam[i] {
-				a.effect(fn, instr, "call:"+callee.Name()+"#arg", a.get(args[i])&oROOTS, 0)
+				a.effect(fn, instr, "call:"+callee.Name()+"#arg", a.get(sargs[i])&oROOTS, 0)
 			}
 		}
 		if res != nil {
-			a.set(res, a.subst(s.Ret, args))
+			a.set(res, a.subst(s.Ret, sargs))
 		}
 	}
 }
@@ -672,6 +682,10 @@ func (a *E3) transfer(fn *ssa.Function, instr ssa.Instruction) {
 			o &^= oSCALAR
 		} else if _, ok := x.AssertedType.Underlying().(*types.Basic); ok {
 			o = oSCALAR
+		} else if !types.IsInterface(x.AssertedType) && o&oRECV != 0 {
+			// a value of a concrete type that is neither a container nor a spine is not the receiver (always a container pointer)
+			// nor anything inside it: that alternative of the origin is excluded by the assertion
+			o = o&^(oRECV|oBARE|oVIAEGO) | oSCALAR
 		}
 		a.set(x, o)
 	case *ssa.BinOp:
